@@ -38,6 +38,10 @@ CLAIMED = {
    technique="bounded-exhaustive cross-implementation enumeration: library streams into image/jpeg; streams of an independent baseline encoder (sampling x Huffman tables x DRI x APPn x ids x sizes 1..33^2) and of image/jpeg.Encode into baseline.Decode/extended.Decode, compared with image/jpeg",
    text="Encoder side: every 8-bit stream of the C11 space is decoded by image/jpeg and must agree with the library decoder within 2 (RGB 6). Decoder side: an independent float-DCT baseline encoder enumerates 4:4:4/4:2:2/4:2:0/4:4:0/grey x standard/optimised Huffman x no-DRI/DRI=1/DRI=row x none/JFIF/Adobe x component ids over every size 1..33^2 and 4 contents; image/jpeg.Encode streams too; both library decoders must return w*h*c tightly packed samples within tolerance of image/jpeg.",
    note="Trusted: Go's image/jpeg (named by the property) and /verif/harness/ref/dctenc.go; every reference stream must first be accepted by image/jpeg with the right geometry or it is not used."),
+ "C20": dict(engine="E1/E2 component level", design="§4 C20",
+   technique="bounded-exhaustive enumeration at component level: all (bit,context) sequences up to a length bound from every MQ start state, all small coefficient blocks x orientation x 64 code-block styles through T1 with the encoder's reported pass lengths, all small signals/geometries/origins through the 5/3 DWT, RCT cube",
+   text="MQ: 94 start states x every sequence of length <= 8 (thorough 10) over 2 contexts, every sequence of length 12 (14) from the default state, long 19-context patterns; marker-emulation and trailing-0xFF checks on every output. T1: every block over {0,+-1,+-2} (<= 5-6 samples) / {0,+-1} (<= 8-9) / {0,1,-21,32,-63} (<= 4, reaches bypass bit-planes) for all shapes within 5x5 x 4 orientations x all 64 style combinations, plus larger family blocks (2^24 magnitudes, 64x64). DWT: all 1-D signals of length <= 8 over {-2..2} x both parities; all (w,h) <= 17^2 and 255..257 x 1..3, levels 0..8, 64 origins. RCT: [-8,8]^3 and boundary triples to +-2^28.",
+   note="T1 decoder is driven the way t2.TileDecoder drives it (DecodeLayeredWithMode with cumulative PassData.Rate). One known finding: BYPASS without TERMALL (16 of 64 styles) is not decodable; listed in known_findings.json."),
 }
 NOT_APPLICABLE = {}
 
